@@ -84,15 +84,26 @@ class BlockDiagonalOperator(EndomorphicOperator):
 
     def _combine_chain(self, op):
         check_object_identity(self._domain, op._domain)
-        res = {key: v1(v2)
-               for key, v1, v2 in zip(self._domain.keys(), self._ops, op._ops)}
+        res = {}
+        for key, v1, v2 in zip(self._domain.keys(), self._ops, op._ops):
+            # A missing entry (None) is the identity
+            if v1 is None and v2 is None:
+                continue
+            res[key] = v2 if v1 is None else (v1 if v2 is None else v1(v2))
         return BlockDiagonalOperator(self._domain, res)
 
     def _combine_sum(self, op, selfneg, opneg):
         from ..operators.sum_operator import SumOperator
+        from ..operators.scaling_operator import ScalingOperator
         check_object_identity(self._domain, op._domain)
-        res = {key: SumOperator.make([v1, v2], [selfneg, opneg])
-               for key, v1, v2 in zip(self._domain.keys(), self._ops, op._ops)}
+        res = {}
+        for key, v1, v2 in zip(self._domain.keys(), self._ops, op._ops):
+            # A missing entry (None) is the identity
+            if v1 is None:
+                v1 = ScalingOperator(self._domain[key], 1.)
+            if v2 is None:
+                v2 = ScalingOperator(self._domain[key], 1.)
+            res[key] = SumOperator.make([v1, v2], [selfneg, opneg])
         return BlockDiagonalOperator(self._domain, res)
 
     def __repr__(self):
